@@ -13,7 +13,8 @@ successful prefix is judged instead).
 Signature of a violation: the pass sequence is shrunk (ddmin), the pass after which the clause first
 holds is the culprit, and the model is regenerated with one planted gen_exec feature at a time to
 find a feature that alone suffices: ``<clause>|<Pass>|<feature>`` (``<clause>|<Pass>`` for checker
-clauses when no single feature suffices; 'base'/'multi' otherwise).
+clauses unless one pass on one planted feature reproduces it; 'base'/'multi' for output clauses when
+no single feature suffices).
 """
 
 from __future__ import annotations
@@ -253,6 +254,8 @@ def evaluate(case: GE.Case, model: ir.Model, ctx=None, want: str | None = None):
                 differ.setdefault(e, {})[j] = d
     if not differ and not equal:
         count("inconclusive_no_evaluator")
+        if want is not None:
+            found.append(("outputs-unknown", "no evaluator could compare"))
         return found
     confirmed = []
     for e, per_input in differ.items():
@@ -282,22 +285,28 @@ def _violates(case, source, specs, clause) -> str | None:
     model, applied, _, _ = apply_flat(case, source, specs)
     if model is None or len(applied) != len(specs):
         return None
-    for c, _ in evaluate(case, model, want=clause):
+    for c, _ in evaluate(case, model, want="outputs-differ" if clause == "outputs-unknown" else clause):
         if _kind(c) == _kind(clause):
             return c
     return None
 
 
 def shrink(case: GE.Case, source: str, specs, clause: str):
-    """1-minimal pass sequence for the kind of ``clause``, the pass after which it first holds, and
-    the exact clause at that point."""
+    """1-minimal pass sequence for the kind of ``clause``, the culprit and the exact clause.  The
+    culprit is the pass after which the clause first holds; for output differences a prefix after
+    which *no evaluator could compare* cannot be certified equal, so the first pass whose prefix is
+    not certified equal is named (a later pass may merely have made the difference observable)."""
     minimal = ddmin(list(specs), lambda sub: _violates(case, source, sub, clause) is not None, max_tests=60)
-    culprit, exact = minimal[-1], clause
+    culprit, exact, suspect = minimal[-1], clause, None
     for k in range(1, len(minimal) + 1):
         hit = _violates(case, source, minimal[:k], clause)
         if hit is not None:
-            culprit, exact, minimal = minimal[k - 1], hit, minimal[:k]
+            culprit, exact = (suspect or minimal[k - 1]), hit
+            minimal = minimal[:k]
             break
+        if clause.startswith("outputs-differ") and suspect is None and \
+                _violates(case, source, minimal[:k], "outputs-unknown") is not None:
+            suspect = minimal[k - 1]
     return minimal, culprit, exact
 
 
@@ -347,7 +356,8 @@ def report(ctx, case: GE.Case, source: str, specs, clause: str, message: str) ->
     detail, feats = attribute(case, source, minimal, clause, first=seen, deep=needs_detail)
     if detail not in seen:
         seen.append(detail)
-    single = detail in GE.FEATURES  # one planted feature alone reproduces it
+    # checker clauses: the feature is named only when one pass on one planted feature reproduces it
+    single = detail in GE.FEATURES and len(minimal) == 1
     signature = f"{clause}|{culprit[0]}" + (f"|{detail}" if needs_detail or single else "")
     replay = {
         "seed": case.info["seed"], "size": case.info["size"], "features": feats, "source": source,
